@@ -275,6 +275,8 @@ def r3_detail_stripping(ctx):
            'the second comparison overwrites the verdict of the first' if cmp_ok else
            'the stripped texts are never compared (or the result is dropped): IGNORE_EXCEPTION_DETAIL has no effect, a traceback want that differs only in the message still fails', anchor=CE)
     ok = {'got', 'want'} <= stripped_roles
+    # a stripped text whose origin is neither the raised message nor the wanted message is not a verdict about either side
+    need(ok or stripped_roles <= {'got', 'want'}, 'C03.R3: the origin of a stripped text was not recognised (roles: %s)' % sorted(stripped_roles))
     rep.ob('C03.R3', ctx.loc(f, f.node), 'both sides stripped', ok,
            'stripping is applied to the raised message and to the wanted message' if ok else
            'detail stripping is applied to %s only' % sorted(stripped_roles), anchor=CE)
